@@ -1,10 +1,10 @@
 #!/bin/bash
-# run_seeded.sh <PROP> <name> [tier] : copies the verified seeded change from /tmp/wt-<PROP> into /verif/seeded/<name>/,
+# run_seeded.sh <PROP> <name> [tier] [worktree] : (if a worktree is given: copies the verified seeded change from it into /verif/seeded/<name>/),
 # applies it to /repo, runs the property's check, restores /repo, and records the outcome in meta.json.
-P=$1; NAME=$2; TIER=${3:-quick}; WT=${4:-/tmp/wt-$P}
+P=$1; NAME=$2; TIER=${3:-quick}; WT=${4:-}
 D=/verif/seeded/$NAME
 mkdir -p $D
-if [ -d "$WT" ]; then
+if [ -n "$WT" ] && [ -d "$WT" ]; then
   (cd $WT && git diff -- src) > $D/patch.diff
   cp $WT/harness/tests/demo_*.rs $D/ 2>/dev/null
   cp $WT/_out/notes.md $D/notes.md 2>/dev/null
